@@ -151,6 +151,24 @@ theorem gen_unary_range_row (nv : Nat) (G : BipG) {u : Nat} (hu : 1 ≤ u ∧ u 
   rw [bind_ok_eq]
   exact abs_right_neighbors G hu
 
+/-- **C11 on the translated source, for `UnaryMappingVariables`** (the statement of `gen_bip_bijection` on the
+translated methods of this class): for every object the translated constructor returns on a well-formed graph,
+`indices()` enumerates pairs with consecutive identifiers from `number_of_variables() + 1`, `len` is their number,
+and `to_index` / `_unsafe_index_to_lit` are inverse to each other on them -/
+theorem gen_unary_bijection {nv : Nat} {G : BipG} (h : G.WF) {out : Except Err Unit} {self : UnaryMappingVariables}
+    (hs : UnaryMappingVariables.init ⟨nv⟩ (absBip G) out = .ok self) :
+    ∃ idxs : List (Int × Int), UnaryMappingVariables.indices self [] = .ok idxs ∧
+      idxs.mapM (fun t => UnaryMappingVariables.index_to_lit self [t.1, t.2]) =
+        .ok ((List.range' (nv + 1) idxs.length).map Int.ofNat) ∧
+      UnaryMappingVariables.len self = idxs.length ∧
+      (∀ t ∈ idxs, ∃ id, UnaryMappingVariables.index_to_lit self [t.1, t.2] = .ok id ∧
+        UnaryMappingVariables.to_index self id = .ok t ∧ UnaryMappingVariables.to_index self (-id) = .ok t) ∧
+      (∀ lit t, UnaryMappingVariables.to_index self lit = .ok t →
+        t ∈ idxs ∧ UnaryMappingVariables.index_to_lit self [t.1, t.2] = .ok (Py.abs lit)) := by
+  have hb : BipartiteEdgesVariables.init ⟨nv⟩ (absBip G) out = .ok (unaryToBip self) := by
+    rw [← gen_unary_init_eq_bip, hs]; rfl
+  exact gen_bip_bijection h hb
+
 example : (UnaryMappingVariables.init ⟨4⟩ (absBip gen_bip_example_graph) (.ok ())).toOption.map
     (UnaryMappingVariables.call · [some 2, none]) = some (.ok (.inr [6, 7])) := by decide
 example : UnaryMappingVariables.domain (unarySelf 4 gen_bip_example_graph) (some 2) = .ok [2] := by decide
@@ -178,7 +196,7 @@ theorem gen_digraph_to_index_eq_model (nv : Nat) {B : BipG} (h : B.WF) (succ : B
       simp only [Py.map_ok, Py.ok_bind, hs, if_true]
       rfl
     | true =>
-      have hs : ¬ ((digraphSelf nv B true).sortby = "pred") := by decide
+      have hs : ¬ ((digraphSelf nv B true).sortby = "pred") := digraphSelf_succ nv B
       simp only [Py.map_ok, Py.ok_bind, hs, if_false]
       rfl
 
@@ -202,7 +220,7 @@ theorem gen_digraph_indices_eq_model (nv : Nat) (B : BipG) (succ : Bool) (pat : 
     have hs : (digraphSelf nv B false).sortby = "pred" := rfl
     rw [if_pos hs, bind_ok_eq, gen_bip_indices_eq_model, digraphIndices_pred]
   | true =>
-    have hs : ¬ ((digraphSelf nv B true).sortby = "pred") := by decide
+    have hs : ¬ ((digraphSelf nv B true).sortby = "pred") := digraphSelf_succ nv B
     rw [if_neg hs, gen_bip_indices_eq_model, digraphIndices_succ]
     cases bipIndices B pat.reverse with
     | error e => rfl
@@ -238,7 +256,7 @@ theorem gen_digraph_index_to_lit_eq_model (nv : Nat) {B : BipG} (h : B.WF) (succ
     rw [if_pos hs, bind_ok_eq, gen_bip_index_to_lit_eq_model nv h he]
     rfl
   | true =>
-    have hs : ¬ ((digraphSelf nv B true).sortby = "pred") := by decide
+    have hs : ¬ ((digraphSelf nv B true).sortby = "pred") := digraphSelf_succ nv B
     rw [if_neg hs, bind_ok_eq]
     have hr : List.reverse [(a : Int), (b : Int)] = [(b : Int), (a : Int)] := rfl
     rw [hr, gen_bip_index_to_lit_eq_model nv h he]
@@ -253,12 +271,24 @@ theorem gen_digraph_to_index_index_to_lit (nv : Nat) {B : BipG} (h : B.WF) (succ
   refine ⟨_, gen_digraph_index_to_lit_eq_model nv h succ he, ?_, ?_⟩
   · rw [gen_digraph_to_index_eq_model nv h]
     cases succ with
-    | false => simp only [Group.unsafeId]; rw [(bipIndex_bipId h (nv + 1) he).1]; rfl
-    | true => simp only [Group.unsafeId]; rw [(bipIndex_bipId h (nv + 1) he).1]; rfl
+    | false =>
+      have he' : (a, b) ∈ B.edgeset := he
+      have hid : Group.unsafeId (.digraph (nv + 1) B false "") [a, b] = bipId B (nv + 1) a b := rfl
+      rw [hid, (bipIndex_bipId h (nv + 1) he').1]; rfl
+    | true =>
+      have he' : (b, a) ∈ B.edgeset := he
+      have hid : Group.unsafeId (.digraph (nv + 1) B true "") [a, b] = bipId B (nv + 1) b a := rfl
+      rw [hid, (bipIndex_bipId h (nv + 1) he').1]; rfl
   · rw [gen_digraph_to_index_eq_model nv h]
     cases succ with
-    | false => simp only [Group.unsafeId]; rw [(bipIndex_bipId h (nv + 1) he).2]; rfl
-    | true => simp only [Group.unsafeId]; rw [(bipIndex_bipId h (nv + 1) he).2]; rfl
+    | false =>
+      have he' : (a, b) ∈ B.edgeset := he
+      have hid : Group.unsafeId (.digraph (nv + 1) B false "") [a, b] = bipId B (nv + 1) a b := rfl
+      rw [hid, (bipIndex_bipId h (nv + 1) he').2]; rfl
+    | true =>
+      have he' : (b, a) ∈ B.edgeset := he
+      have hid : Group.unsafeId (.digraph (nv + 1) B true "") [a, b] = bipId B (nv + 1) b a := rfl
+      rw [hid, (bipIndex_bipId h (nv + 1) he').2]; rfl
 
 /-- the hypotheses are those of the model's constructor: the auxiliary graph of `new_digraph_edges` is well formed -/
 theorem gen_digraph_aux_wf {D : DiG} {succ : Bool} {B : BipG} (hB : digraphAux D succ = .ok B) : B.WF :=
@@ -337,7 +367,7 @@ theorem gen_graph_to_index_index_to_lit (nv : Nat) {B : BipG} (h : B.WF) {a b : 
 /-- the hypothesis is that of the model's constructor: the auxiliary graph of `new_graph_edges` is well formed -/
 theorem gen_graph_aux_wf {G : SimpleG} {B : BipG} (hB : graphAux G = .ok B) : B.WF := (graphAux_spec hB).1
 
-/-- the auxiliary graph of the triangle-free path `1 - 3 - 2`, given as `Graph(3)` with the edges `(3,1), (2,3)` -/
+/-! on the running example graph (edge `(1,3)` of `B`, identifier 5): both orientations of the pair -/
 example : GraphEdgesVariables.index_to_lit (graphSelf 4 gen_bip_example_graph) [3, 1] = .ok 5 := by decide
 example : GraphEdgesVariables.index_to_lit (graphSelf 4 gen_bip_example_graph) [1, 3] = .ok 5 := by decide
 example : GraphEdgesVariables.to_index (graphSelf 4 gen_bip_example_graph) (-5) = .ok (1, 3) := by decide
@@ -350,7 +380,6 @@ theorem gen_single_init_eq (nv : Nat) : SingletonVariableGroup.init ⟨nv⟩ = s
   unfold SingletonVariableGroup.init singleSelf
   simp only []
   congr 2
-  omega
 
 /-- the constructor of the model (`new_variable`: `mkGroup … (.variable label)`) starts at the same identifier -/
 theorem gen_single_init_eq_model (nv : Nat) (label : Option String) :
@@ -361,8 +390,10 @@ theorem gen_single_init_eq_model (nv : Nat) (label : Option String) :
 
 theorem gen_single_len_eq_model (nv : Nat) (name : Option String) :
     SingletonVariableGroup.len (singleSelf nv) = ((Group.single (nv + 1) name).len : Nat) := by
-  simp only [SingletonVariableGroup.len, singleSelf, Py.Range.len, Group.len]
-  split <;> omega
+  have e : (nv : Int) + 2 = (nv : Int) + 1 + ((1 : Nat) : Int) := by omega
+  show Py.Range.len ⟨(nv : Int) + 1, (nv : Int) + 2⟩ = _
+  rw [e, Py.range_len_nat]
+  rfl
 
 theorem gen_single_contains_eq_model (nv : Nat) (name : Option String) (lit : Int) :
     SingletonVariableGroup.contains (singleSelf nv) lit = (Group.single (nv + 1) name).contains lit := by
@@ -391,6 +422,7 @@ theorem gen_single_getitem_eq (nv : Nat) (i : Int) :
     · have : i = -1 := by omega
       subst this
       simp
+      omega
     · have h2 : ¬ (i = 0 ∨ i = -1) := by omega
       simp [h0, h1, h2]
 
@@ -409,11 +441,11 @@ theorem gen_single_call_eq_model (nv : Nat) (name : Option String) :
 theorem gen_single_to_index_eq (nv : Nat) (lit : Int) :
     SingletonVariableGroup.to_index (singleSelf nv) lit =
       if lit.natAbs = nv + 1 then Except.ok () else Except.error Err.valueError := by
-  simp only [SingletonVariableGroup.to_index, single_getitem_zero, Py.ok_bind, Py.abs_eq]
+  simp only [SingletonVariableGroup.to_index, single_getitem_zero, Py.ok_bind]
   by_cases h : lit.natAbs = nv + 1
-  · have h' : ¬ ((lit.natAbs : Int) ≠ (nv : Int) + 1) := by omega
+  · have h' : ¬ (Py.abs lit ≠ (nv : Int) + 1) := by rw [Py.abs_eq]; omega
     rw [if_neg h', if_pos h]
-  · have h' : (lit.natAbs : Int) ≠ (nv : Int) + 1 := by omega
+  · have h' : Py.abs lit ≠ (nv : Int) + 1 := by rw [Py.abs_eq]; omega
     rw [if_pos h', if_neg h]
 
 /-- … which is `Group.toIndex` of the model (the index `()` is the empty list) -/
